@@ -3,6 +3,11 @@
 import json, subprocess
 ALL=[f"C{i:02d}" for i in range(1,21)]
 CHECKS={
+ "C14": dict(level="exploration", engine="E1-dfs",
+   technique="exhaustive enumeration of operation cycles x chain lengths on real pre-loaded descriptors with a harness nesting counter",
+   text="All 1463 cycles of length 1..3 over {conn read/write, FIFO read/write, regular-file read/write, accept, packet read/write, multicast-peer read/write} x chain lengths {31,32,33,34,70}: every callback issues the next step; nesting <= MaxCallbackDispatch+1, IO.Dispatched back to 0 after every unwinding, the step issued at the limit completes after polling with the inline result, every step exactly once.",
+   note="Chains longer than 70 and cycles longer than 3 are not driven; the two regular-file findings are listed in KNOWN_FINDINGS.txt with their own signatures, so a nesting excess on any other kind is still reported.",
+   design="4/C14"),
  "C02": dict(level="exploration", engine="E1-dfs",
    technique="exhaustive enumeration of stream compositions x buffer sizes x poll placements over real descriptors with raw peers, and of every (n, err) answer of a scripted io.ReadWriter under the AsyncAdapter; position-dependent byte generator as oracle",
    text="Reads: every composition of an N-byte stream (N<=5 quick / 8 thorough) into buffers {1,2,3,5,8} with AsyncRead and AsyncReadAll re-issued from the callback, over Dial conn, accepted conn, FIFO file and AsyncAdapter; poll placement, late or forced-deferred start and a concurrent write are deviations (<=2/3). Writes: FIFO of 1-2 pages x 7 sizes x drain patterns (deterministic partial writes), TCP with minimal send buffer. Adapter with scripted ReadWriter: every sequence of {all, 1 byte, error, 1 byte+error} answers. Bytes, counts, *All contract, exactly-once and nothing-lost are checked on every execution.",
